@@ -75,6 +75,15 @@ def families(tier):
         out.append({"name": kind + ":maintenance-vs-set", "kind": kind, "w": ws, "cfg": cfgs, "setup": over, "fire": 0,
                     "parts": [[G.op(0, "set", K2, "W2W2W2", 1)], [G.op(0, "set", KEY, BIG1, 2), GET]],
                     "values": {fnv_show(v) for v in (BIG1, "V0V0V0", "W2W2W2")}})
+        # a writer that uses the library's own temp directory (ensure) next to a maintainer: the
+        # maintainer lists, stats and sweeps .kismet_temp while the other creates / publishes there
+        EK = G.op(0, "ensure", ("k3", 7, 9), "val:W3W3W3:2")
+        out.append({"name": kind + ":maintenance-vs-ensure", "kind": kind, "w": ws, "cfg": cfgs, "setup": over, "fire": 0,
+                    "parts": [[G.op(0, "set", K2, "W2W2W2", 1)], [EK, G.op(0, "get", ("k3", 7, 9))]],
+                    "values": {fnv_show(v) for v in (BIG1, "V0V0V0", "W2W2W2", "W3W3W3")}})
+        out.append({"name": kind + ":maintenance-ensure-vs-ensure", "kind": kind, "w": ws, "cfg": cfgs, "setup": over, "fire": "all",
+                    "parts": [[G.op(0, "ensure", K2, "val:W2W2W2:1")], [EK]],
+                    "values": {fnv_show(v) for v in (BIG1, "V0V0V0", "W2W2W2", "W3W3W3")}})
         out.append({"name": kind + ":maintenance-vs-maintenance", "kind": kind, "w": ws, "cfg": cfgs, "setup": over, "fire": "all",
                     "parts": [[G.op(0, "set", K2, "W2W2W2", 1)], [G.op(0, "put", ("k3", 7, 9), "W3W3W3", 1), GET]],
                     "values": {fnv_show(v) for v in (BIG1, "V0V0V0", "W2W2W2", "W3W3W3")}})
@@ -112,13 +121,14 @@ def plans(fam, lens, tier, rng):
         others = [b for b in range(n) if b != a]
         for i in range(0, lens[a] + 1):
             out.append(("switch1", [(a, i)] + [(b, None) for b in others] + [(a, None)]))
-    if tier != "quick":
+    if tier != "quick" or "maintenance" in fam["name"]:
+        si, sj = (2, 3) if tier != "quick" else (3, 4)
         for a in range(n):
             for b in range(n):
                 if a == b:
                     continue
-                for i in range(1, lens[a], 2):
-                    for j in range(1, lens[b], 3):
+                for i in range(1, lens[a], si):
+                    for j in range(1, lens[b], sj):
                         out.append(("switch2", [(a, i), (b, j), (a, None), (b, None)]))
     k = 6 if tier == "quick" else 40
     for r in range(k):
